@@ -58,22 +58,22 @@ Fixpoint qbody (s : bytes) : bytes :=
   | c :: r =>
       if c <? 128 then quote_ascii c ++ qbody r
       else
-        let bad := esc_fffd ++ qbody r in
+        let bad (_ : unit) := esc_fffd ++ qbody r in
         match r with
-        | [] => bad
+        | [] => bad tt
         | c1 :: r1 =>
             if utf8_2 c c1 then [c; c1] ++ qbody r1
             else
               match r1 with
-              | [] => bad
+              | [] => bad tt
               | c2 :: r2 =>
                   if utf8_3 c c1 c2 then quote_3 c c1 c2 ++ qbody r2
                   else
                     match r2 with
-                    | [] => bad
+                    | [] => bad tt
                     | c3 :: r3 =>
                         if utf8_4 c c1 c2 c3 then [c; c1; c2; c3] ++ qbody r3
-                        else bad
+                        else bad tt
                     end
               end
         end
